@@ -244,7 +244,9 @@ func cellsC12(thorough bool) []Cfg {
 		s    Sched
 		shot int64
 	}
-	rps := []rpsV{{unl(3000), 500}, {cst(2, 500), 0}, {cst(2, 1500), 0}, {cst(2, 4000), 0}, {once(2), 0}}
+	rps := []rpsV{{unl(3000), 500}, {cst(2, 500), 0}, {cst(2, 1500), 0}, {cst(2, 4000), 0}, {once(2), 0},
+		// a profile of several segments: the switch from one segment to the next is not the end of the profile
+		{comp(once(1), cst(2, 1000)), 0}, {comp(once(2), cst(0, 500), once(1)), 0}}
 	for _, st := range startups {
 		for _, rv := range rps {
 			for _, per := range []bool{false, true} {
@@ -266,6 +268,16 @@ func cellsC12(thorough bool) []Cfg {
 				c := Cfg{Prop: "C12", Startup: st, RPS: cst(2, 4000), PerInst: per, Ammo: -1, ShotMs: []int64{0}, Bound: 1, Fault: Fault{"gun", pos}}
 				out = append(out, c)
 			}
+		}
+	}
+	// two preemptions around the switch between the segments of a shared profile
+	for _, st := range []Sched{once(2), once(3), comp(once(2), cst(0, 1000), once(1)), comp(once(2), cst(0, 400), once(1), cst(0, 1000), once(1))} {
+		for _, rp := range []Sched{comp(once(1), cst(2, 3000)), comp(once(1), once(2))} {
+			b := 1
+			if thorough {
+				b = 2
+			}
+			out = append(out, Cfg{Prop: "C12", Startup: st, RPS: rp, Ammo: -1, ShotMs: []int64{0}, Bound: b})
 		}
 	}
 	var res []Cfg
